@@ -1,5 +1,5 @@
 """C29 - Loading places exactly the object image into a fresh machine (ordering, frame rule, index ranges)."""
-from lib import simx, tables, panics
+from lib import nf, simx, tables, panics
 from lib.panics import _unwrap_var, interval, _agg_name
 import discharge, C06
 
@@ -82,13 +82,15 @@ def run(ck, ctx):
         ok = len(ext) == 1 and len(cp) == 1 and len(ges) == 1 and lf.dominates(ges[0], cp[0]) and not lf.can_reach(cp[0], ext[0])
         ck.ob("C29.3", "external-guard-first", ok, "get_external_symbol() is consulted before the first copy; the UnresolvedExternal return cannot follow a copy", where)
         if cp:
-            joins = [bi for bi, si, s2 in lf.stmts() if s2["k"] == "assign" and any(isinstance(e, dict) and e.get("name") == "alloca" for e in s2["p"]["proj"])]
-            g = simx.local_guards(lf, cp[0], joins[0]) if joins else []
-            kinds = [("loop" if "Iterator>::next" in repr(e) else "external" if "get_external_symbol" in repr(e) else "other:" + repr(e)[:60]) for d, e, edge in g]
-            ck.ob("C29.3", "every-block-copied", sorted(kinds) == ["loop"], "inside load_obj_file the copy is conditional only on the block loop (the external check is an early return): %s" % kinds, where)
+            # complete path condition of the copy (every decision on every path to it): the block loop and the early
+            # return for unresolved externals - nothing else may decide whether a block of the file is copied
+            cc = nf.complete_conds(lf, cp[0])
+            IT = "next(into_iter(ObjectFile::block_iter(arg2)))"
+            want_cc = "discr(ObjectFile::get_external_symbol(arg2))!in{1} & discr(%s)=1" % IT
+            ck.ob("C29.3", "every-block-copied", cc == want_cc, "inside load_obj_file the copy is conditional only on the block loop (the external check is an early return): %s" % cc, where)
             t = [t for bi, t, c, _ in lf.calls() if bi == cp[0]][0]
-            a1, a2 = repr(lf.expr_of_operand(t["args"][1], 8)), repr(lf.expr_of_operand(t["args"][2], 8))
-            ck.ob("C29.3", "copy-args", "'start'" in a1 and "'words'" in a2 and "ObjectFile::block_iter" in repr([c for _, _, c, _ in lf.calls()]), "copy_obj_block(start, words) for (start, words) in obj.block_iter()", where)
+            args = [nf.arg_x(lf, t, i, cp[0]) for i in range(3)]
+            ck.ob("C29.3", "copy-args", args == ["arg1.mem", IT + " as Some.0.0", IT + " as Some.0.1"], "copy_obj_block(start, words) for (start, words) in obj.block_iter(): %s" % args, where)
 
     # ---- copy_obj_block
     cb = F.bodies.get("sim::mem::MemArray::copy_obj_block")
